@@ -43,6 +43,11 @@ func calculateNextQuota(
 	total := float64(getLimitQuota(upstreamTotal.LimitItemDetail, flowControlType))
 	allocated := float64(getLimitQuota(upstreamUsed.LimitItemDetail, flowControlType))
 	remaining := total - allocated
+	if remaining < 0 {
+		// the allocated sum exceeds the global limit, e.g. after the limit was
+		// lowered: nothing remains and no quota may grow
+		remaining = 0
+	}
 
 	var next, burst float64
 
@@ -144,21 +149,29 @@ func calculateNextQuota(
 		}
 	}
 
-	// The minimum limit quota is 1
-	if next < 1 {
-		next = 1
-	}
 	if next < total*MinimumQuotaPercent {
 		next = total * MinimumQuotaPercent
 	}
 
+	// growth is limited by the remaining quota
 	if next-current > remaining {
 		next = current + remaining
 	}
 
+	// a quota never exceeds the global limit
+	if next > total {
+		next = total
+	}
+
+	// The minimum limit quota is 1, it is applied last so that no other
+	// adjustment can push the quota below it
+	if next < 1 {
+		next = 1
+	}
+
 	next = math.Ceil(next)
 
-	if flowControlType == proxyv1alpha1.TokenBucket {
+	if flowControlType == proxyv1alpha1.TokenBucket && total > 0 {
 		burst = next / total * float64(upstreamTotal.LimitItemDetail.TokenBucket.Burst)
 	}
 	burst = math.Ceil(burst)
